@@ -389,6 +389,10 @@ func c17Contexts() []c17Ctx {
 			t := ph(a, ClsUserName, "text", "names")
 			return "text " + t.Placeholder() + " {\nformat(\"{A}{B} aa bb {A}{B} aa\", \"font1\")\n}", func() interp.Value { return t.Val }
 		}},
+		{"format-text-long", func(a *AtomTable) (string, func() interp.Value) {
+			t := ph(a, ClsUserName, "text", "names")
+			return "text " + t.Placeholder() + " {\nformat(\"{A}{B} aa bb {A}{B} aa bb aa bb aa bb aa\", \"font1\")\n}", func() interp.Value { return t.Val }
+		}},
 		{"movement", func(a *AtomTable) (string, func() interp.Value) {
 			m := ph(a, ClsUserName, "mv", "names")
 			return "movement " + m.Placeholder() + " {\n" + ph(a, ClsIdent, "step", "").Placeholder() + " * 2\nwalk_up\n}", func() interp.Value { return m.Val }
@@ -402,7 +406,15 @@ func c17Contexts() []c17Ctx {
 			return "mapscripts " + m.Placeholder() + " {\n" + ph(a, ClsIdent, "mstype", "").Placeholder() + ": " + ph(a, ClsIdent, "target", "").Placeholder() + "\n}", func() interp.Value { return m.Val }
 		}},
 	}
-	neighbours := map[string]func(a *AtomTable) string{"script": script, "texts": texts, "mapscripts+mart": maps, "raw": raw, "format-other-font": fmt2}
+	// the same text, font and width as "format-text-long" with other box
+	// parameters (a result cache keyed too coarsely would leak between them)
+	fmtLines := func(a *AtomTable) string {
+		return "text " + ph(a, ClsUserName, "text", "names").Placeholder() + " {\nformat(\"{A}{B} aa bb {A}{B} aa bb aa bb aa bb aa\", \"font1\", numLines=3)\n}"
+	}
+	fmtOverlap := func(a *AtomTable) string {
+		return "script " + ph(a, ClsUserName, "script", "names").Placeholder() + " {\n" + ph(a, ClsPlainCmd, "cmd", "").Placeholder() + "(format(\"{A}{B} aa bb {A}{B} aa bb aa bb aa bb aa\", \"font1\", cursorOverlapWidth=2))\n}"
+	}
+	neighbours := map[string]func(a *AtomTable) string{"script": script, "texts": texts, "mapscripts+mart": maps, "raw": raw, "format-other-font": fmt2, "format-same-text-numLines": fmtLines, "format-same-text-cursorOverlap": fmtOverlap}
 	var nnames []string
 	for n := range neighbours {
 		nnames = append(nnames, n)
